@@ -11,7 +11,7 @@ RULE = ("cases = record histories of 8..90 records over up to 6 processes: FORK 
         "weights 1; conformance: every entry holds exactly the samples the model puts there. non-trivial = the history contains an EXIT or EXEC and at least two samples")
 TRUSTED = ["vlib/perfdata.py (perf.data writer) and linux-perf-data's parsing and per-round sorting", "vlib/conv_e2e.py::view (reading out.json back)",
            "times are compared in integer nanoseconds after rounding the JSON's millisecond floats"]
-ASSUMPTIONS = ["default options only: --reuse-threads and --fold-recursive-prefix are not modelled (the conservation check on (pid, tid, time) is still run with --reuse-threads in the thorough tier)",
+ASSUMPTIONS = ["the model covers default options; runs with --reuse-threads and / or --fold-recursive-prefix are decided by the model-free specification only (with --reuse-threads on the multiset of sample times, since samples may be merged into earlier entries)",
                "recordings without context-switch records (the property's 'no other samples' clause)", "all record times are >= the SAMPLE_TIME origin"]
 _state = {}
 
@@ -28,6 +28,11 @@ def gen(tier, rng, scale):
         if rng.chance(1, 3):
             c["shuffle"] = rng.next()
         cases.append(c)
+    # the same kind of histories converted with --reuse-threads and / or --fold-recursive-prefix (decided by the specification alone)
+    frng = rng.fork("flags")
+    for _ in range((60 if tier == "quick" else 1200) * scale):
+        recs = E.gen_history(frng, grammar=frng.chance(1, 2))
+        cases.append({"items": recs, "flags": frng.choice([["--reuse-threads"], ["--fold-recursive-prefix"], ["--reuse-threads", "--fold-recursive-prefix"]])})
     return cases
 
 
@@ -40,7 +45,21 @@ def with_items(case, items):
 def evaluate(cases):
     if not cases:
         return []
-    return E.evaluate(PROP, "verdict_c01", cases, _state.setdefault("stats", {}))
+    plain = [(i, c) for i, c in enumerate(cases) if not c.get("flags")]
+    flagged = [(i, c) for i, c in enumerate(cases) if c.get("flags")]
+    out = [None] * len(cases)
+    st = _state.setdefault("stats", {})
+    if plain:
+        for (i, _), v in zip(plain, E.evaluate(PROP, "verdict_c01", [c for _, c in plain], st)):
+            out[i] = v
+    if flagged:
+        fst = st.setdefault("with_flags", {})
+        vs = E.evaluate(PROP, "verdict_c01_flags", [c for _, c in flagged], fst, extra_args_of=lambda c: c["flags"],
+                        wrap=lambda c, t: "(%s, %s)" % ("true" if "--reuse-threads" in c["flags"] else "false", t),
+                        case_type="(bool * (N * list record * list oentry))")
+        for (i, _), v in zip(flagged, vs):
+            out[i] = v
+    return out
 
 
 def known(case):
@@ -48,7 +67,7 @@ def known(case):
 
 
 def describe(case):
-    d = {"records": case["items"][:120], "shuffled_in_rounds": "shuffle" in case}
+    d = {"records": case["items"][:120], "shuffled_in_rounds": "shuffle" in case, "options": case.get("flags", [])}
     if "_view" in case:
         d["observed_entries"] = [{k: (v if k != "samples" else v[:20]) for k, v in e.items()} for e in case["_view"][:12]]
     if "_out" in case:
